@@ -637,7 +637,11 @@ def expand_macro_rules(src, name: str, invocation: int, report: DropReport, item
     return expanded + "\n"
 
 
-def for_to_while(text: str, anchor: str, itname: str, report: DropReport, item: str) -> str:
+def seq_toks(toks, n):
+    return toks[:n]
+
+
+def for_to_while(text: str, anchor: str, itname: str, report: DropReport, item: str, by_value: bool = False) -> str:
     """W14: `for PAT in &EXPR {` -> `let mut IT = EXPR.iter(); while let Some(PAT) = IT.next() {` -- the language's own
     desugaring of a `for` over `&Vec<T>` / `&[T]` (IntoIterator for &Vec<T> is `.iter()`).  Needed where the body uses
     `continue`, which Verus supports in `while`/`loop` but not yet in `for`."""
@@ -648,10 +652,24 @@ def for_to_while(text: str, anchor: str, itname: str, report: DropReport, item: 
     if len(idx) != 1:
         raise ExtractError(f"{item}: `{anchor}` matched {len(idx)} times")
     i = idx[0]
-    toks = ct[i:i + len(seq)]
-    if toks[0].text != "for" or ct[i + len(seq)].text != "{":
-        raise ExtractError(f"{item}: `{anchor}` is not the complete header of a `for` loop")
+    # the anchor may stop after `in`: the header then runs up to the `{` that opens the body
+    e = i + len(seq)
+    while ct[e].text != "{":
+        if ct[e].text in R.OPEN:
+            e = R.match_close(ct, e)
+        e += 1
+    toks = ct[i:e]
+    if toks[0].text != "for" or not any(t.text == "in" for t in seq_toks(toks, len(seq))):
+        raise ExtractError(f"{item}: `{anchor}` is not the header of a `for` loop (up to and including `in`)")
     k_in = next(k for k, t in enumerate(toks) if t.text == "in")
+    if by_value:
+        # `for PAT in ITER {` where ITER is itself an iterator (IntoIterator for an Iterator is the identity):
+        # the language's own desugaring `let mut IT = ITER; while let Some(PAT) = IT.next() {`
+        pat = text[toks[1].start:toks[k_in - 1].end]
+        expr = text[toks[k_in + 1].start:toks[-1].end]
+        fr.replace(toks[0].start, toks[-1].end, f"let mut {itname} = {expr}; while let Some({pat}) = {itname}.next()")
+        report.add("W14", item, f"`{anchor}` -> `let mut {itname} = {expr}; while let Some({pat}) = {itname}.next()` (the iterated expression is an Iterator; the body uses `continue`)")
+        return fr.apply()
     if toks[k_in + 1].text != "&":
         raise ExtractError(f"{item}: W14 applies to `for PAT in &EXPR` only")
     pat = text[toks[1].start:toks[k_in - 1].end]
@@ -1116,7 +1134,7 @@ class Unit:
             if icfg.get("mut_self_to"):
                 text = mut_self_to_local(text, icfg["mut_self_to"], self.report, itemname)
             for fw in icfg.get("for_to_while", []):
-                text = for_to_while(text, fw["anchor"], fw["iter"], self.report, itemname)
+                text = for_to_while(text, fw["anchor"], fw["iter"], self.report, itemname, fw.get("by_value", False))
             for ex in icfg.get("excise_range", []):
                 text = excise_range(text, ex["start"], ex["last"], ex.get("replace", ""), self.report, itemname)
             for ex in icfg.get("excise_stmt", []):
